@@ -108,7 +108,7 @@ func (c *Ctx) extractFindCall(method string) (*findCall, error) {
 	}
 	// the call of find may sit in a helper shared by the four conversions: look at the region, resolve arguments upwards
 	tr := c.plainTracer()
-	region := c.regionCalls(fn, func(f *ssa.Function) bool { return !f.Object().Exported() && f.Name() != "find" && f.Name() != "index" })
+	region := c.regionCalls(fn, func(f *ssa.Function) bool { return !isExportedFn(f) && f.Name() != "find" && f.Name() != "index" })
 	calls := findRegion(region, func(ci ssa.CallInstruction) bool { return calleeName(ci.Common()) == "op.CircleOfFifth.find" })
 	if len(calls) != 1 {
 		return nil, fmt.Errorf("%d calls to find in %s", len(calls), method)
